@@ -15,30 +15,30 @@ import (
 
 // Case is the replayable description of one schedule.
 type Case struct {
-	Prog    string `json:"prog"`
-	Desc    string `json:"program"`
-	Choices []int  `json:"schedule"`
-	Elide   bool   `json:"elide"`
-	Sleep   bool   `json:"mode_a"`
+	Prog     string        `json:"prog"`
+	Desc     string        `json:"program"`
+	Choices  []int         `json:"schedule"`
+	Elide    bool          `json:"elide"`
+	Sleep    bool          `json:"mode_a"`
 	Installs map[int][]int `json:"sleep_installs,omitempty"`
-	Reset   bool   `json:"globals_reset,omitempty"` // package-level state is put back into its initial state before the execution
+	Reset    bool          `json:"globals_reset,omitempty"` // package-level state is put back into its initial state before the execution
 }
 
 // Opts tunes the strategy per tier.
 type Opts struct {
 	Name, Desc string
 	SigPrefix  string
-	CapA       int // execution cap of mode A
+	CapA       int   // execution cap of mode A
 	Bounds     []int // preemption bounds to try in order when mode A does not complete (first that completes within CapB wins; later ones are attempted while they fit)
-	CapB       int // execution cap per bound
+	CapB       int   // execution cap per bound
 	NoElide    bool
 	SkipA      bool // do not attempt mode A (programs whose operations are nearly all mutually dependent)
 	// ColdStart adds a second exploration in which every execution starts from the initial package-level
 	// state of the library (as the first use in a fresh process: empty pools, caches and registries), up to
 	// the given preemption bounds. The main exploration runs on warm state, which is what a long-lived
 	// process sees; a defect that needs an empty pool or a first use shows only from a cold start.
-	ColdStart  []int
-	ColdCap    int
+	ColdStart []int
+	ColdCap   int
 }
 
 // Judges return "kind\x00detail" strings.
